@@ -25,20 +25,34 @@ from .. import core
 LEVEL = "model_checking"
 
 KINDS = ("module", "nested", "lambda", "main")
-TAGS = {1: "v1", 2: "v2", 3: "v1", 4: "v1"}     # 3 = the text of 1 again, 4 = text of 1 moved down one line
+TAGS = {1: "v1", 2: "v2", 3: "v1", 4: "v1", 5: "v5"}
+# 3 = the text of 1 again, 4 = text of 1 moved down one line,
+# 5 = the text of 1 with ONE statement dedented (an indentation-only edit that changes the result)
+
+
+def _body_lines(tag, dedent):
+    """Function body: returns (t, x) where t is `tag` unless the dedented statement overrides it."""
+    inner = "t = 'v5'" if tag == "v1" else "t = %r" % tag
+    return ["t = %r" % tag, "if x < -100:", "    pass", ("" if dedent else "    ") + inner, "_log(t, x)", "return (t, x)"]
 
 
 def source(kind, k):
     tag = TAGS[k]
+    base_tag = "v1" if k == 5 else tag
+    body = _body_lines(base_tag, dedent=(k == 5))
     pre = "# moved\n" if k == 4 else ""
     log = "import os\n\ndef _log(tag, x):\n    with open(os.environ['VF_C12_LOG'], 'a') as fh:\n        fh.write('%s %r\\n' % (tag, x))\n\n"
     if kind in ("module", "main"):
-        body = "def f(x):\n    _log(%r, x)\n    return (%r, x)\n" % (tag, tag)
+        text = "def f(x):\n" + "".join("    %s\n" % l for l in body)
     elif kind == "nested":
-        body = "def make():\n    def f(x):\n        _log(%r, x)\n        return (%r, x)\n    return f\n\nf = make()\n" % (tag, tag)
+        text = "def make():\n    def f(x):\n" + "".join("        %s\n" % l for l in body) + "    return f\n\nf = make()\n"
     else:
-        body = "f = lambda x: (_log(%r, x), (%r, x))[1]\n" % (tag, tag)
-    return log + pre + body
+        # a lambda cannot hold statements: the indentation-only edit is expressed on a continuation line
+        if k == 5:
+            text = "f = lambda x: (_log('v5', x),\n    ('v5', x))[1]\n"
+        else:
+            text = "f = lambda x: (_log(%r, x),\n              (%r, x))[1]\n" % (tag, tag)
+    return log + pre + text
 
 
 def load_def(kind, path):
@@ -123,9 +137,18 @@ def run_segment(arg):
 
 
 def _tag_of_file(path):
+    """Behavioural tag of the definition currently in the file (obtained by running it, log disabled)."""
     with open(path) as f:
         t = f.read()
-    return "v2" if "'v2'" in t else "v1"
+    ns = {"__name__": "vf_c12_probe"}
+    old = os.environ.get("VF_C12_LOG")
+    os.environ["VF_C12_LOG"] = os.devnull
+    try:
+        exec(compile(t, path, "exec"), ns)
+        return ns["f"](0)[0]
+    finally:
+        if old is not None:
+            os.environ["VF_C12_LOG"] = old
 
 
 def _count(logp):
@@ -267,7 +290,7 @@ def events_for(nlive, mode):
         evs.append(("restart",))
         return evs
     thorough = bool(mode) and mode != "base"
-    evs = [("def", 1), ("def", 2), ("def", 3)]
+    evs = [("def", 1), ("def", 2), ("def", 3), ("def", 5)]
     if thorough:
         evs.append(("def", 4))
     for s in range(min(nlive, 2)):
@@ -347,7 +370,7 @@ def fmt(h):
     out = []
     for e in h:
         if e[0] == "def":
-            out.append("define v%d%s" % (e[1], " (text of v1)" if e[1] in (3, 4) else ""))
+            out.append("define v%d%s" % (e[1], " (text of v1)" if e[1] in (3, 4) else " (v1 with one statement dedented)" if e[1] == 5 else ""))
         elif e[0] == "call":
             out.append("call %s(%d)" % ("newest" if e[1] == 0 else "older", e[2]))
         elif e[0] == "swap":
